@@ -72,6 +72,8 @@ func c15Batch(c *caseCtx, addr string, maxLen int) (items []wireItem, ids []stri
 		// same address (the receiving node), ids that glue together differently with the address
 		targets = append(targets, actor.NewPID(addr, "1/x"), actor.NewPID(addr, "1/x")) // equal copies
 		targets = append(targets, actor.NewPID(addr+"1", "/y"), actor.NewPID(addr, "1/y"))
+		// ... and a pair that reads the same when address and id are joined with the "/" that ids contain anyway
+		targets = append(targets, actor.NewPID(addr, "p/1/x"), actor.NewPID(addr+"/p", "1/x"))
 	}
 	seen := map[string]bool{}
 	for _, t := range targets {
@@ -82,7 +84,8 @@ func c15Batch(c *caseCtx, addr string, maxLen int) (items []wireItem, ids []stri
 	}
 	base := actor.NewPID("10.0.0.1:4000", "s/1")
 	senders := []*actor.PID{nil, base, actor.NewPID("10.0.0.1:4000", "s/1"), actor.NewPID("10.0.0.1:4000", "s/2"),
-		actor.NewPID("ab", "c"), actor.NewPID("a", "bc"), nil, actor.NewPID("", "noaddr"), actor.NewPID("onlyaddr", "")}
+		actor.NewPID("ab", "c"), actor.NewPID("a", "bc"), nil, actor.NewPID("", "noaddr"), actor.NewPID("onlyaddr", ""),
+		actor.NewPID("10.0.0.1:4000", "s/1/q"), actor.NewPID("10.0.0.1:4000/s", "1/q")}
 	sPool := 1 + r.Intn(len(senders))
 	n := 1 + r.Intn(maxLen)
 	big := 0
